@@ -35,6 +35,7 @@
 #endif
 
 #include <assert.h>
+#include <limits>
 #include <iostream>
 #include <iomanip>
 #include <typeinfo>
@@ -1848,7 +1849,8 @@ public:
       SVectorBase<R>& row = rowVector_w(i);
       SVectorBase<R>& col = colVector_w(j);
 
-      if(isNotZero(val, this->tolerances()->epsilon()))
+      // an exact (rational) LP stores every nonzero verbatim; only floating-point LPs drop values below epsilon
+      if(std::numeric_limits<R>::is_exact ? (val != 0) : isNotZero(val, this->tolerances()->epsilon()))
       {
          R newVal;
 
